@@ -578,7 +578,7 @@ var pureLib = map[string]bool{
 	"netip.Addr.IsUnspecified": true, "netip.AddrPort.String": true,
 	"x509.MarshalPKIXPublicKey": true, "base64.Encoding.DecodeString": true, "x509.ParseCertificate": true,
 	"fs.FileMode.IsRegular": true, "fs.FileInfo.Mode": true, "fs.FileInfo.IsDir": true, "fs.FileInfo.ModTime": true,
-	"time.Time.IsZero": true, "time.Time.Add": true,
+	"time.Time.IsZero": true, "time.Time.Add": true, "os.File.Fd": true,
 }
 
 var libWriters = map[string]bool{
